@@ -910,33 +910,39 @@ func ruleNilOnlyWhenRemoving(r *Run, rule string, fn *Func, name string) {
 		if ret == nil || len(ret.Rhs) != 1 || ValueKey(info, ret.Rhs[0]) != "nil" {
 			continue
 		}
-		excused := false
-		for _, e := range p.Ev {
-			if e.Kind != EvBranch || e.Cond == nil {
-				continue
+		// nil may be returned only for a nil input or under the remove-completed option (for a Sequence also
+		// when no action is left): assume none of these and the path must be impossible
+		params := map[types.Object]bool{}
+		for _, f := range fn.Decl.Type.Params.List {
+			for _, nm := range f.Names {
+				params[info.ObjectOf(nm)] = true
 			}
-			if x, op, ok := IsNilCompare(info, e.Cond); ok && e.Taken && op == token.EQL {
-				if id, ok := x.(*ast.Ident); ok {
-					for _, f := range fn.Decl.Type.Params.List {
-						for _, nm := range f.Names {
-							if info.ObjectOf(nm) == info.ObjectOf(id) {
-								excused = true
+		}
+		atom := func(e ast.Expr) (string, bool, bool) {
+			e = ast.Unparen(e)
+			if x, op, ok := IsNilCompare(info, e); ok && params[ObjOf(info, x)] {
+				return "input-nil", op == token.NEQ, true
+			}
+			if _, m := FieldPath(info, e, "", "removeCompleted"); m {
+				return "removing", false, true
+			}
+			if be, ok := e.(*ast.BinaryExpr); ok && name == "Sequence" {
+				if lc, ok := ast.Unparen(be.X).(*ast.CallExpr); ok && len(lc.Args) == 1 {
+					if id, ok := lc.Fun.(*ast.Ident); ok && id.Name == "len" && mentionsField(info, lc.Args[0], "Actions") {
+						if k, isC := ConstInt(info, be.Y); isC && k == 0 {
+							switch be.Op {
+							case token.EQL:
+								return "no-actions-left", false, true
+							case token.NEQ, token.GTR:
+								return "no-actions-left", true, true
 							}
 						}
 					}
 				}
 			}
-			if e.Taken {
-				for _, cj := range conjuncts(e.Cond) {
-					if strings.HasSuffix(ExprStr(cj), "removeCompleted") {
-						excused = true
-					}
-				}
-			}
-			if e.Taken && name == "Sequence" && strings.Contains(ExprStr(e.Cond), "len(") && strings.Contains(ExprStr(e.Cond), "Actions) == 0") {
-				excused = true
-			}
+			return "", false, false
 		}
+		excused := PathRefuted(fl, p, -1, map[string]bool{"input-nil": false, "removing": false, "no-actions-left": false}, atom)
 		if !excused && bad == "" {
 			bad, bpos = "clone."+name+" returns nil on a path that is neither the nil-input guard nor under the remove-completed option (guard "+ExitGuardKey(fl, p)+"): part of the definition silently disappears from the clone", ret.Pos
 		}
